@@ -5,9 +5,12 @@ import (
 	"strings"
 	"testing"
 
+	"github.com/ajitpratap0/GoSQLX/pkg/gosqlx"
 	"github.com/ajitpratap0/GoSQLX/pkg/sql/tokenizer"
 	"pgregory.net/rapid"
 	"verif/gen/lexgen"
+	"verif/gen/sqlgen"
+	"verif/internal/astdump"
 	"verif/internal/hx"
 	"verif/internal/obs"
 )
@@ -273,4 +276,73 @@ func TestOperatorPairsExhaustive(t *testing.T) {
 	}
 	hx.Exhaustive("op_pairs", true)
 	t.Logf("operator pairs: %d cases", n)
+}
+
+// ---------------------------------------------------------------- layout never changes the parse
+
+type ParseLayoutCase struct {
+	Canonical string `json:"canonical"`
+	Laid      string `json:"laid_out"`
+}
+
+func parseDump(sql string) (string, error) {
+	tree, err := gosqlx.Parse(sql)
+	if err != nil {
+		return "", err
+	}
+	return astdump.DumpOpt(tree.Statements, astdump.Options{FoldCase: true}), nil
+}
+
+func oracleParseLayout(c ParseLayoutCase) error {
+	a, ea := parseDump(c.Canonical)
+	b, eb := parseDump(c.Laid)
+	if (ea == nil) != (eb == nil) {
+		return fmt.Errorf("same lexical elements, different verdict: canonical layout err=%v, other layout err=%v", short(ea), short(eb))
+	}
+	if ea == nil && a != b {
+		return fmt.Errorf("same lexical elements parse to different trees: %s", astdump.Diff(b, a))
+	}
+	return nil
+}
+
+func short(err error) string {
+	if err == nil {
+		return "<nil>"
+	}
+	s := err.Error()
+	if i := strings.IndexByte(s, '\n'); i >= 0 {
+		s = s[:i]
+	}
+	return s
+}
+
+var parseLayoutCheck = hx.NewCheck("parse_layout_invariant", oracleParseLayout)
+
+func TestParseLayoutInvariant(t *testing.T) {
+	hx.Rule("parse_layout_invariant", "G-SQL statement tokens rendered once with single spaces and once with drawn separators (none where legal, newlines, tabs, line/block comments) and re-drawn keyword case; both must get the same verdict and the same tree (strings case-folded); non-trivial = the second layout has a comment or an abutting pair; distinct = separator classes + token count")
+	parseLayoutCheck.Rapid(t, hx.N(3000, 200000), func(rt *rapid.T) ParseLayoutCase {
+		sf := sqlgen.AllFeatures()
+		g := sqlgen.New(rt, sf)
+		st := sqlgen.Statement(g)
+		lx := sqlgen.Lexemes(st.Toks)
+		f := features()
+		lb := lexgen.Recase(rt, lx)
+		tx := lexgen.Render(lb, lexgen.GenSeps(rt, f, lb, "p"))
+		abut := false
+		for i, s := range tx.SepClass {
+			if s == lexgen.SepNone && i > 0 && i < len(tx.SepClass)-1 {
+				abut = true
+			}
+		}
+		var cl []string
+		if abut {
+			cl = append(cl, "abutting")
+		}
+		if len(tx.Comments) > 0 {
+			cl = append(cl, "comment")
+		}
+		hx.Case("parse_layout_invariant", abut || len(tx.Comments) > 0, strings.Join(tx.SepClass, ",")+st.Kind, cl...)
+		hx.Sample("parse_layout_invariant", tx.Src)
+		return ParseLayoutCase{Canonical: sqlgen.SQL(st.Toks), Laid: tx.Src}
+	})
 }
